@@ -539,6 +539,14 @@ func (vc *VC) enterLoop(fr *frame, li *loopInfo, st *State) *State {
 			entryLocs = append(entryLocs, vc.evalLoc(c, cl.Expr, fr.contract)...)
 		}
 	}
+	if ms.alloc || ms.all || ms.allocAll {
+		// earlier iterations may have allocated: the references held by the loop-modified locals (made arbitrary
+		// below) are bounded by the allocation counter at the head, not by the counter at loop entry
+		a := vc.allocCounter(st)
+		na := p.Fresh("$A@"+what+".head", SInt)
+		vc.assume(st, p.Le(a, na))
+		st.heap[allocKey] = na
+	}
 	for a := range ms.cells {
 		k := cellKey{a, fr.id}
 		if _, ok := st.cells[k]; ok || a.Parent() == fr.fn {
@@ -557,8 +565,7 @@ func (vc *VC) enterLoop(fr *frame, li *loopInfo, st *State) *State {
 		locs := entryLocs
 		// Objects allocated by earlier iterations have arbitrary contents: every map the body may write
 		// agrees with the loop-entry state only on references allocated before the loop (and outside locs).
-		aEntry := vc.allocCounter(st)
-		li.aEntry = aEntry
+		aEntry := li.aEntry
 		entry := st.clone()
 		vc.havocLocs(st, locs, what)
 		if ms.alloc || ms.all {
